@@ -102,6 +102,12 @@ Definition reg_model (c : list pdecl * list (str * value)) : option (option str)
             dict(decls=[d(name='a')], config={'a': {'__auto__': 'AutoD', 'args': {'x': 1, 'rate': 1.0, 'flag': 1.0, 'opts': {'a': 1.0, 'b': [2]}}}}),
             dict(decls=[d(name='a')], config={'a': {'__auto__': 'AutoD', 'args': {'x': 1, 'rate': 2, 'flag': 0, 'opts': {'a': 1}}}}),
             dict(decls=[d(name='a')], config={'a': {'k': {'__user__': 'U(1)'}, 'b': [1e16, 'é']}}),
+            # a class that extends the inherited list of ignored arguments in place, rendered before a class that persists
+            # arguments of those names (what was rendered earlier in the process must not matter)
+            dict(decls=[d(name='a'), d(name='b')], config={'a': {'__auto__': 'AutoX', 'args': {'source': 's', 'workers': 4}},
+                                                         'b': {'__auto__': 'AutoW', 'args': {'lr': 0.1, 'workers': 4, 'batch_size': 64}}}),
+            dict(decls=[d(name='a')], config={'a': [{'__auto__': 'AutoX', 'args': {'source': 's'}}, {'__auto__': 'AutoW', 'args': {'lr': 1, 'workers': 8}},
+                                                    {'__auto__': 'AutoA', 'args': {'a': 1, 'verbose': True}}]}),
         ]
 
     def gen(self, rng, tier):
